@@ -52,7 +52,13 @@ def main(argv=None):
         sys.stderr.write(ebuf.getvalue())
         sys.stdout.write(buf.getvalue())
         return 0
+    rc_prev = rc
     for mode, label in (("1", "N1"), ("2", "N1+N2")):
+        # N2 (unrolling of loops over literal tables) changes the loop structure some rules read directions and ranges from: a rule can
+        # lose that information on the unrolled form and pass vacuously.  It is therefore used only to get past "cannot classify"
+        # (exit 2 on the tree as written *and* on N1), never to overturn a VIOLATION
+        if mode == "2" and not (rc == 2 and rc_prev == 2):
+            break
         os.environ["SA_NORMALISE"] = mode
         buf2 = io.StringIO()
         try:
@@ -60,6 +66,7 @@ def main(argv=None):
                 rc2 = _main(argv)
         finally:
             os.environ.pop("SA_NORMALISE", None)
+        rc_prev = rc2
         if rc2 == 0 and chk_holder and chk_holder[0].prog.normal_info:
             sys.stdout.write(buf2.getvalue())
             inl = sorted({h for v in chk_holder[0].prog.normal_info.values() for h in v["helpers_inlined"]})
